@@ -153,4 +153,4 @@ pub(crate) trait CMsgHdr {
 }
 
 #[cfg(unix)]
-pub(crate) const LEN: usize = 96;
+pub(crate) const LEN: usize = 128;
